@@ -16,13 +16,13 @@ import (
 func init() { Registry["C09"] = C09 }
 
 type c09Prog struct {
-	name     string
-	files    map[string]string
-	pkgs     []string // package patterns in canonical order
-	fails    bool
-	note     string
-	sub      string // working sub-directory inside the module (generated programs live below their case name)
-	anyExit  bool   // generated programs: the reference decides whether it succeeds
+	name    string
+	files   map[string]string
+	pkgs    []string // package patterns in canonical order
+	fails   bool
+	note    string
+	sub     string // working sub-directory inside the module (generated programs live below their case name)
+	anyExit bool   // generated programs: the reference decides whether it succeeds
 }
 
 func c09Programs() []c09Prog {
@@ -87,7 +87,7 @@ type Converter interface {
 	// S3: converters of several packages merged into one file
 	ps = append(ps, c09Prog{name: "multi", pkgs: []string{"./k1", "./k2", "./k3"}, note: "several converters from several packages in one @cwd file",
 		files: map[string]string{
-			"types/t.go": "package types\n\ntype In struct{ V int; N Nested }\ntype Nested struct{ S string }\ntype Out struct{ V int; N NestedOut }\ntype NestedOut struct{ S string }\n",
+			"types/t.go":  "package types\n\ntype In struct{ V int; N Nested }\ntype Nested struct{ S string }\ntype Out struct{ V int; N NestedOut }\ntype NestedOut struct{ S string }\n",
 			"k1/input.go": "package k1\n\nimport \"vcase/types\"\n\n// goverter:converter\n// goverter:output:file @cwd/out/gen.go\n// goverter:output:package vcase/out\ntype Bravo interface {\n\tB(source types.In) types.Out\n}\n",
 			"k2/input.go": "package k2\n\nimport \"vcase/types\"\n\n// goverter:converter\n// goverter:output:file @cwd/out/gen.go\n// goverter:output:package vcase/out\ntype Alpha interface {\n\tA(source types.In) types.Out\n}\n\n// goverter:converter\n// goverter:output:file @cwd/out/gen.go\n// goverter:output:package vcase/out\ntype Delta interface {\n\tD(source []types.In) []types.Out\n}\n",
 			"k3/input.go": "package k3\n\nimport \"vcase/types\"\n\n// goverter:converter\n// goverter:output:file @cwd/out/gen.go\n// goverter:output:package vcase/out\ntype Charlie interface {\n\tC(source map[string]types.In) map[string]types.Out\n}\n",
@@ -200,10 +200,10 @@ func (p *c09Prog) place(dir string) {
 }
 
 type c09Obs struct {
-	label string
-	exit  int
+	label  string
+	exit   int
 	stderr string
-	files map[string]string
+	files  map[string]string
 }
 
 func (o c09Obs) diff(ref c09Obs) string {
@@ -309,9 +309,13 @@ func C09(e *core.Env) int {
 		// permutations / duplicates / wildcard
 		rev := append([]string{}, p.pkgs...)
 		sort.Sort(sort.Reverse(sort.StringSlice(rev)))
-		add("reversed", func(dir string) c09Obs { return obsCLI(dir, wd(dir), append([]string{"gen"}, rev...), nil, "reversed patterns") })
+		add("reversed", func(dir string) c09Obs {
+			return obsCLI(dir, wd(dir), append([]string{"gen"}, rev...), nil, "reversed patterns")
+		})
 		dup := append(append([]string{}, rev...), p.pkgs...)
-		add("duplicated", func(dir string) c09Obs { return obsCLI(dir, wd(dir), append([]string{"gen"}, dup...), nil, "duplicated patterns") })
+		add("duplicated", func(dir string) c09Obs {
+			return obsCLI(dir, wd(dir), append([]string{"gen"}, dup...), nil, "duplicated patterns")
+		})
 		add("wildcard", func(dir string) c09Obs { return obsCLI(dir, wd(dir), []string{"gen", "./..."}, nil, "./...") })
 		add("overlap", func(dir string) c09Obs {
 			return obsCLI(dir, wd(dir), append([]string{"gen", "./..."}, p.pkgs...), nil, "./... plus explicit")
